@@ -229,7 +229,7 @@ pub fn run_scenario<TC: ModelCfg>(sc: &Scenario, chooser: &mut Chooser) -> RunOu
         let mut results = vec![];
         let mut horizon = false;
         for h in handles {
-            match tokio::time::timeout(tokio::time::Duration::from_secs(3600), h).await {
+            match tokio::time::timeout(tokio::time::Duration::from_secs(if sc.poller { 30 } else { 3600 }), h).await {
                 Ok(Ok(r)) => results.push(r),
                 Ok(Err(e)) => {
                     eprintln!("MACHINERY ERROR: actor task panicked: {e}");
